@@ -309,8 +309,16 @@ def run_property(mod, tier, seed):
         jobs = [(mod.__name__, paths, os.path.join(scratch.root, "s%d" % i), tier, seed, i, nex, known_ids)
                 for i in range(nshards)]
         ctx = multiprocessing.get_context("fork")
-        with ctx.Pool(min(nshards, NSHARDS)) as pool:
-            stats = pool.map(_shard, jobs, chunksize=1)
+        # (an executor, not a Pool: when a shard process is killed - e.g. by the OOM killer - a Pool waits for ever, an executor
+        # raises; such a loss is a harness failure, reported as such, never a verdict)
+        from concurrent.futures import ProcessPoolExecutor
+        from concurrent.futures.process import BrokenProcessPool
+        try:
+            with ProcessPoolExecutor(max_workers=min(nshards, NSHARDS), mp_context=ctx) as ex:
+                stats = list(ex.map(_shard, jobs))
+        except BrokenProcessPool:
+            print("HARNESS: a shard process of %s died (out of memory?); no verdict" % mod.ID)
+            return 3
 
     evals = sum(s["evals"] for s in stats)
     nt = set()
